@@ -21,13 +21,16 @@ pub struct PrmCase {
     /// when set, the connection radius is the space's own distance between these two states,
     /// so that sample pairs lie *exactly* one radius apart (strictness of `<`)
     pub radius_from: Option<(Vec<f64>, Vec<f64>)>,
+    /// the radius is this many ulps above the distance of the `radius_from` pair (0: exact tie):
+    /// the pair is then inside the radius by the narrowest possible margin
+    pub radius_ulps: u64,
 }
 impl PrmCase {
     pub fn to_json(&self) -> Value {
         json!({"kind":"prm","problem":self.problem.to_json(),"params":self.params.to_json(),"n_samples":self.n_samples,
                "script":self.script.as_ref().map(|s| s.iter().map(|x| fjs(x)).collect::<Vec<_>>()),
                "start2":fjs(&self.start2),"goal2":self.goal2.to_json(),
-               "radius_from":self.radius_from.as_ref().map(|(a,b)| json!([fjs(a),fjs(b)]))})
+               "radius_from":self.radius_from.as_ref().map(|(a,b)| json!([fjs(a),fjs(b)])),"radius_ulps":self.radius_ulps})
     }
     pub fn from_json(v: &Value) -> PrmCase {
         PrmCase {
@@ -38,6 +41,7 @@ impl PrmCase {
             start2: parse_fs(&v["start2"]),
             goal2: GoalSpec::from_json(&v["goal2"]),
             radius_from: v["radius_from"].as_array().map(|a| (parse_fs(&a[0]), parse_fs(&a[1]))),
+            radius_ulps: v["radius_ulps"].as_u64().unwrap_or(0),
         }
     }
 }
@@ -112,7 +116,8 @@ pub fn make_case(r: &mut Sm, idx: usize, exhaustive: Option<(usize, usize)>) -> 
             }
         }
     }
-    PrmCase { problem, params, n_samples, script, start2, goal2, radius_from }
+    let radius_ulps = if radius_from.is_some() && r.bool(0.5) { 1 + r.below(3) as u64 } else { 0 };
+    PrmCase { problem, params, n_samples, script, start2, goal2, radius_from, radius_ulps }
 }
 
 /// Reference multi-source BFS on the snapshot graph; returns the minimum number of milestones
@@ -290,8 +295,8 @@ fn run_case<K: Kit>(ctx: &Ctx, b: &mut Batch, kit: &K, case: &PrmCase) {
     if let Some((a, bq)) = &case.radius_from {
         let dr = sp.distance(&kit.unflat(a), &kit.unflat(bq));
         if dr > 0.0 && dr.is_finite() {
-            case_owned.params.connection_radius = dr;
-            b.count("cases_with_exact_tie_radius", 1);
+            case_owned.params.connection_radius = f64::from_bits(dr.to_bits() + case.radius_ulps);
+            b.count(if case.radius_ulps == 0 { "cases_with_exact_tie_radius" } else { "cases_with_radius_ulps_above_a_pair_distance" }, 1);
         }
     }
     let case = &case_owned;
